@@ -4,7 +4,8 @@
    the byte-exact correspondence R_genfile and judged by M_genfile (model importer + wf); "every list length
    can occur" and the tie frequencies are requests to numpy's RNG (checked: [pmin, pmax+1), p = [1-t, t]),
    whose distribution is trusted. *)
-From MP Require Import Gen.Quotas Text.Ties Proofs.TiesProofs Proofs.GenProofs.
+From MP Require Import Gen.Quotas Gen.Files Text.Ties Text.Import Proofs.TiesProofs Proofs.GenProofs Proofs.GenFiles
+                       Proofs.PipelineProofs.
 From Coq Require Import Lia.
 Local Open Scope list_scope. Open Scope Z_scope.
 
@@ -46,6 +47,24 @@ Theorem C08_all_ties : forall l ties ts,
   groups ts = Some [l].
 Proof. exact all_ties_one_group. Qed.
 Print Assumptions C08_all_ties.
+
+(* exactly the requested number of files, named 0.txt, 1.txt, ... *)
+Theorem C08_file_names : forall a ds files,
+  generate a ds = Ok files -> (Z.to_nat (g_numinst a) <= length ds)%nat ->
+  map fst files = map (fun k => sZ k +++ ".txt"%string) (rangeZ (g_numinst a)) /\
+  length files = Z.to_nat (g_numinst a).
+Proof. exact generate_names. Qed.
+Print Assumptions C08_file_names.
+
+(* each file is a well-formed instance of the requested type: it is read back, character by character, as a
+   well-formed instance with the requested counts, second-side ranks present exactly when two-sided *)
+Theorem C08_file_well_formed : forall a d text,
+  gargs_ok a -> draws_contract a d -> instance_text a d = Ok text ->
+  exists M, import_model text (na_of a) (g_twopl a) = Ok M /\ wf M = true /\
+            nS M = g_n1 a /\ nP M = g_n2 a /\ (g_twopl a = true -> two_sided M = true) /\
+            (g_twopl a = false -> one_sided M = true).
+Proof. exact generated_file_imports. Qed.
+Print Assumptions C08_file_well_formed.
 
 Example C08_example :
   create_quotas 4 10 = Ok [3; 3; 2; 2] /\ create_quotas 4 3 = Ok [1; 1; 1; 0] /\
